@@ -235,27 +235,30 @@ Definition send_connect (c : conn) (p : pkt) : R :=
     else set_ta_send c None in
   send_and_post c p None [].
 
+(* CONNACK sent with success (v5.0): its properties take effect, and Server Keep Alive drives the
+   receive timer, before the send is requested *)
+Definition connack_send_props (c : conn) (p : pkt) : conn * evs :=
+  if version_eqb (k_ver p) V50 && (k_rc p =? 0) then
+    let c := match k_tam p with Some v => if negb (v =? 0) then set_ta_recv c (Some (tar_new v)) else c | None => c end in
+    let c := match k_rm p with Some v => set_recv_max c (Some v) | None => c end in
+    let c := match k_mps p with Some v => set_mps_recv c v | None => c end in
+    match k_ska p with
+    | Some v =>
+      if v =? 0 then
+        let '(c1, e1) := if c_t_recv c then (set_t_recv c false, [ETimerCancel TPingreqRecv]) else (c, []) in
+        (set_pingreq_recv_to c1 0, e1)
+      else
+        let to := v * 1000 * 3 / 2 in
+        (set_t_recv (set_pingreq_recv_to c to) true, [ETimerReset TPingreqRecv to])
+    | None => (c, [])
+    end
+  else (c, []).
+
 Definition send_connack (c : conn) (p : pkt) : R :=
   if version_eqb (k_ver p) V50 && negb (size_ok c p) then Ok (c, too_large) else
   if negb (status_eqb (c_status c) Connecting) then Ok (c, not_allowed) else
   let ok := k_rc p =? 0 in
-  (* v5.0: properties take effect (and Server Keep Alive drives the receive timer) before the send *)
-  let '(c, pre) :=
-    if version_eqb (k_ver p) V50 && ok then
-      let c := match k_tam p with Some v => if negb (v =? 0) then set_ta_recv c (Some (tar_new v)) else c | None => c end in
-      let c := match k_rm p with Some v => set_recv_max c (Some v) | None => c end in
-      let c := match k_mps p with Some v => set_mps_recv c v | None => c end in
-      match k_ska p with
-      | Some v =>
-        if v =? 0 then
-          let '(c1, e1) := if c_t_recv c then (set_t_recv c false, [ETimerCancel TPingreqRecv]) else (c, []) in
-          (set_pingreq_recv_to c1 0, e1)
-        else
-          let to := v * 1000 * 3 / 2 in
-          (set_t_recv (set_pingreq_recv_to c to) true, [ETimerReset TPingreqRecv to])
-      | None => (c, [])
-      end
-    else (c, []) in
+  let '(c, pre) := connack_send_props c p in
   if negb ok then
     let c := set_status c Disconnected in
     let '(c, e) := cancel_timers c in
@@ -500,33 +503,38 @@ Definition can_receive (g : cfg) (c : conn) (t : N) : bool :=
           ((t =? 2) || (t =? 9) || (t =? 11) || (t =? 13) || ((t =? 15) && v311)))).
 
 (* ---- process_recv_* (after the frame is complete and the parser has been consulted) ---- *)
+(* CONNECT accepted by the parser: the new connection's parameters *)
+Definition connect_recv_state (c : conn) (v : version) (p : pkt) : res conn :=
+  let c := initialize c false in
+  let c := if 0 <? k_keep_alive p then set_pingreq_recv_to c (k_keep_alive p * 1000 * 3 / 2) else c in
+  let c := if k_flag p then clear_store_related c else
+           (if version_eqb v V311 then set_need_store c true else c) in
+  if version_eqb v V50 then
+    bindr (match k_tam p with
+           | Some m => if negb (m =? 0) then bindr (tas_new m) (fun s => Ok (set_ta_send c (Some s))) else Ok c
+           | None => Ok c end) (fun c =>
+    let c := match k_rm p with Some m => set_send_max c (Some m) | None => c end in
+    let c := match k_mps p with Some m => set_mps_send c m | None => c end in
+    Ok (match k_sei p with Some m => if negb (m =? 0) then set_need_store c true else c | None => c end))
+  else Ok c.
+
+Definition connect_refusal (v : version) (e : N) : pkt :=
+  let rc311 := if e =? E_CLIENT_ID_NOT_VALID then 2 else if e =? E_BAD_USER_PASSWORD then 4
+               else if e =? E_UNSUPPORTED_VERSION then 1 else 5 in
+  let rc5 := if e =? E_CLIENT_ID_NOT_VALID then 133 else if e =? E_BAD_USER_PASSWORD then 134
+             else if e =? E_UNSUPPORTED_VERSION then 132 else 128 in
+  if version_eqb v V50 then connack_v5 rc5 else connack_v311 rc311.
+
 Definition recv_connect (g : cfg) (c : conn) (v : version) (pr : presult) : R :=
   if negb (status_eqb (c_status c) Disconnected) then handle_error c v E_PROTOCOL else
   let c := set_status c Connecting in
   match pr with
   | PROk p =>
-    let c := initialize c false in
-    let c := if 0 <? k_keep_alive p then set_pingreq_recv_to c (k_keep_alive p * 1000 * 3 / 2) else c in
-    let c := if k_flag p then clear_store_related c else
-             (if version_eqb v V311 then set_need_store c true else c) in
-    bindr
-      (if version_eqb v V50 then
-         bindr (match k_tam p with
-                | Some m => if negb (m =? 0) then bindr (tas_new m) (fun s => Ok (set_ta_send c (Some s))) else Ok c
-                | None => Ok c end) (fun c =>
-         let c := match k_rm p with Some m => set_send_max c (Some m) | None => c end in
-         let c := match k_mps p with Some m => set_mps_send c m | None => c end in
-         Ok (match k_sei p with Some m => if negb (m =? 0) then set_need_store c true else c | None => c end))
-       else Ok c) (fun c =>
+    bindr (connect_recv_state c v p) (fun c =>
     let '(c, e) := refresh_pingreq_recv c in
     Ok (c, e ++ [ENotify p]))
   | PRErr e =>
-    let rc311 := if e =? E_CLIENT_ID_NOT_VALID then 2 else if e =? E_BAD_USER_PASSWORD then 4
-                 else if e =? E_UNSUPPORTED_VERSION then 1 else 5 in
-    let rc5 := if e =? E_CLIENT_ID_NOT_VALID then 133 else if e =? E_BAD_USER_PASSWORD then 134
-               else if e =? E_UNSUPPORTED_VERSION then 132 else 128 in
-    bindr (send_connack c (if version_eqb v V50 then connack_v5 rc5 else connack_v311 rc311))
-          (fun '(c, ev) => Ok (c, ev ++ [EError e]))
+    bindr (send_connack c (connect_refusal v e)) (fun '(c, ev) => Ok (c, ev ++ [EError e]))
   end.
 
 Definition resume_or_clear (c : conn) (session_present : bool) : R :=
@@ -615,6 +623,37 @@ Definition recv_publish_v311 (g : cfg) (c : conn) (pr : presult) : R :=
 Definition alias_out_of_range (c : conn) (a : N) : bool :=
   (a =? 0) || match c_ta_recv c with None => true | Some r => tr_max r <? a end.
 
+(* topic alias resolution of a received v5.0 PUBLISH: (state, packet to deliver, stop, events) *)
+Definition resolve_recv_alias (g : cfg) (c : conn) (p : pkt) : res (conn * pkt * bool * evs) :=
+  if topic_empty p then
+    match k_alias p with
+    | Some a =>
+      if alias_out_of_range c a then bindr (handle_v5_error c E_TOPIC_ALIAS_INVALID) (fun '(c, e) => Ok (c, p, true, e))
+      else match c_ta_recv c with
+           | Some r => match tar_get r a with
+                       | Some t => Ok (c, add_extracted_topic_name g p t, false, [])
+                       | None => bindr (handle_v5_error c E_TOPIC_ALIAS_INVALID) (fun '(c, e) => Ok (c, p, true, e))
+                       end
+           | None => Ok (c, p, false, [])
+           end
+    | None => bindr (handle_v5_error c E_TOPIC_ALIAS_INVALID) (fun '(c, e) => Ok (c, p, true, e))
+    end
+  else
+    match k_alias p with
+    | Some a =>
+      if alias_out_of_range c a then bindr (handle_v5_error c E_TOPIC_ALIAS_INVALID) (fun '(c, e) => Ok (c, p, true, e))
+      else match c_ta_recv c with
+           | Some r => bindr (tar_insert r (k_topic p) a) (fun r' => Ok (set_ta_recv c (Some r'), p, false, []))
+           | None => Ok (c, p, false, [])
+           end
+    | None => Ok (c, p, false, [])
+    end.
+
+(* the inbound bookkeeping of a QoS>0 PUBLISH: flow-control set and QoS2 handled set *)
+Definition note_inbound (c : conn) (p : pkt) : conn :=
+  let c := if negb (k_qos p =? 0) then set_publish_recv c (ins (k_pid p) (c_publish_recv c)) else c in
+  if k_qos p =? 2 then set_qos2 c (ins (k_pid p) (c_qos2 c)) else c.
+
 Definition recv_publish_v5 (g : cfg) (c : conn) (pr : presult) : R :=
   match pr with
   | PRErr e => if status_eqb (c_status c) Connected then handle_v5_error c e else Ok (c, [EError e])
@@ -624,37 +663,10 @@ Definition recv_publish_v5 (g : cfg) (c : conn) (pr : presult) : R :=
     let over := match c_recv_max c with
                 | Some mx => mx <=? N.of_nat (length (c_publish_recv c)) | None => false end in
     if negb (k_qos p =? 0) && over then handle_v5_error c E_RECEIVE_MAXIMUM_EXCEEDED else
-    let c := if negb (k_qos p =? 0) then set_publish_recv c (ins id (c_publish_recv c)) else c in
     let already := (k_qos p =? 2) && mem id (c_qos2 c) in
-    let c := if k_qos p =? 2 then set_qos2 c (ins id (c_qos2 c)) else c in
     let puback_send := (k_qos p =? 1) && c_auto_pub c && connected in
     let pubrec_send := (k_qos p =? 2) && connected && (c_auto_pub c || already) in
-    (* topic alias resolution *)
-    let part : res (conn * pkt * bool * evs) :=
-      if topic_empty p then
-        match k_alias p with
-        | Some a =>
-          if alias_out_of_range c a then bindr (handle_v5_error c E_TOPIC_ALIAS_INVALID) (fun '(c, e) => Ok (c, p, true, e))
-          else match c_ta_recv c with
-               | Some r => match tar_get r a with
-                           | Some t => Ok (c, add_extracted_topic_name g p t, false, [])
-                           | None => bindr (handle_v5_error c E_TOPIC_ALIAS_INVALID) (fun '(c, e) => Ok (c, p, true, e))
-                           end
-               | None => Ok (c, p, false, [])
-               end
-        | None => bindr (handle_v5_error c E_TOPIC_ALIAS_INVALID) (fun '(c, e) => Ok (c, p, true, e))
-        end
-      else
-        match k_alias p with
-        | Some a =>
-          if alias_out_of_range c a then bindr (handle_v5_error c E_TOPIC_ALIAS_INVALID) (fun '(c, e) => Ok (c, p, true, e))
-          else match c_ta_recv c with
-               | Some r => bindr (tar_insert r (k_topic p) a) (fun r' => Ok (set_ta_recv c (Some r'), p, false, []))
-               | None => Ok (c, p, false, [])
-               end
-        | None => Ok (c, p, false, [])
-        end in
-    bindr part (fun '(c, q, stop, e0) =>
+    bindr (resolve_recv_alias g (note_inbound c p) p) (fun '(c, q, stop, e0) =>
     if stop then Ok (c, e0) else
     bindr (if puback_send then send_puback_like c (ack_pkt g T_PUBACK V50 id None) else Ok (c, [])) (fun '(c, e1) =>
     bindr (if pubrec_send then send_puback_like c (ack_pkt g T_PUBREC V50 id None) else Ok (c, [])) (fun '(c, e2) =>
